@@ -1,8 +1,8 @@
 #!/bin/bash
 # usage: tools/try_mutant.sh <patch.diff> <Cnn> [tier]   — applies the patch to a scratch worktree of /repo's HEAD
 # (MUT_REPO, default /tmp/mutrepo; /repo itself is not touched), runs the check against it (FGGS_REPO), reverts
-cd "$(dirname "$0")/.."
 P=$(realpath "$1"); C=$2; T=${3:-quick}
+cd "$(dirname "$0")/.."
 R=${MUT_REPO:-/tmp/mutrepo}
 [ -d "$R" ] || git -C /repo worktree add --detach "$R" >/dev/null 2>&1
 git -C "$R" checkout -q -- . && git -C "$R" checkout -q --detach "$(git -C /repo rev-parse HEAD)"
